@@ -1,7 +1,499 @@
-//! C08 — not built yet
-use crate::vcore::Tier;
+//! C08 — the displayed picture is the standard decode of the ULA-visible screen memory.
+//! E-PROD over screen contents (Latin frames: every screen address meets every byte value;
+//! address-line frames) x writers x machine/screen-bank configurations, the completed frame
+//! compared pixel by pixel with the reference decode; flash period; beam-relative clause.
 
-pub fn run(_tier: Tier, _seed: u64, _replay: Option<String>) -> i32 {
-    eprintln!("MACHINERY: check C08 is not built yet");
-    2
+use crate::formats::*;
+use crate::refzx::*;
+use crate::rig::{self, Emu, Opts, RegsView, VAsset};
+use crate::vcore::{par_for, Ctx, Tier};
+use rustzx_core::host::{Screen, Snapshot, Tape};
+use serde_json::json;
+use std::time::Duration;
+
+const IDLE: u16 = 0x9000;
+
+#[derive(Clone, Copy, Debug, PartialEq, Eq)]
+pub enum Writer {
+    Ldir,
+    FastLoad,
+    Sna,
+    SzxStored,
+    SzxZlib,
+    Scr,
+    Poke,
+    CpuStores,
+}
+
+#[derive(Clone, Copy, Debug, PartialEq, Eq)]
+pub enum Cfg {
+    K48,
+    K128Normal,
+    /// shadow screen displayed (7FFD bit 3), content written to bank 7 through 0xC000
+    K128Shadow,
+    /// content written to bank 5 through 0xC000 (bank 5 paged there)
+    K128Bank5AtC000,
+}
+
+fn m128(c: Cfg) -> bool {
+    c != Cfg::K48
+}
+
+fn frames(e: &mut Emu, n: usize) -> bool {
+    for _ in 0..n {
+        if e.emulate_frames(Duration::from_secs(1000)).is_err() {
+            return false;
+        }
+    }
+    true
+}
+
+fn latin(j: usize) -> Vec<u8> {
+    let mut v = vec![0u8; 6912];
+    for a in 0..6144usize {
+        v[a] = ((17 * a + j) % 256) as u8;
+    }
+    for a in 0..768usize {
+        v[6144 + a] = ((29 * a + 3 * j) % 256) as u8;
+    }
+    v
+}
+
+fn address_line(k: usize, complement: bool) -> Vec<u8> {
+    let mut v = vec![0u8; 6912];
+    for a in 0..6912usize {
+        let bit = (a >> k) & 1 == 1;
+        v[a] = if bit != complement { 0xFF } else { 0x00 };
+    }
+    // attributes: ink 7 paper 0 unless the address-line pattern already covers attributes
+    for a in 6144..6912usize {
+        let bit = (a >> k) & 1 == 1;
+        v[a] = if bit != complement { 0x47 } else { 0x38 };
+    }
+    v
+}
+
+fn set_idle(e: &mut Emu) {
+    rig::poke(e, IDLE, &[0xF3, 0x18, 0xFE]); // DI; JR $
+    let mut r = RegsView::default();
+    r.pc = IDLE;
+    r.sp = 0xBF00;
+    r.im = 1;
+    rig::set_regs(e.verif_cpu(), &r);
+}
+
+/// Bring a machine to the configuration and put `content` into the display memory with `w`.
+fn write_content(c: Cfg, w: Writer, content: &[u8]) -> Result<Emu, String> {
+    let mut o = Opts::machine(m128(c));
+    o.sound = false;
+    o.fastload = true;
+    let mut e = rig::emu(&o);
+    let latch: u8 = match c {
+        Cfg::K48 | Cfg::K128Normal => 0x00,
+        Cfg::K128Shadow => 0x0F,       // bank 7 at C000, shadow screen shown
+        Cfg::K128Bank5AtC000 => 0x05, // bank 5 at C000, normal screen
+    };
+    let out_latch = |e: &mut Emu, v: u8| {
+        // LD BC,7FFD; LD A,v; OUT (C),A; JP IDLE
+        rig::poke(e, 0x8800, &[0x01, 0xFD, 0x7F, 0x3E, v, 0xED, 0x79, 0xC3, IDLE as u8, (IDLE >> 8) as u8]);
+        set_idle(e);
+        e.verif_cpu().regs.set_pc(0x8800);
+        frames(e, 1);
+    };
+    set_idle(&mut e);
+    let dst: u16 = if matches!(c, Cfg::K128Shadow | Cfg::K128Bank5AtC000) { 0xC000 } else { 0x4000 };
+    match w {
+        Writer::Ldir | Writer::CpuStores => {
+            if m128(c) {
+                out_latch(&mut e, latch);
+            }
+            rig::poke(&mut e, 0xA000, content);
+            let code: Vec<u8> = if w == Writer::Ldir {
+                vec![0xF3, 0x21, 0x00, 0xA0, 0x11, dst as u8, (dst >> 8) as u8, 0x01, 0x00, 0x1B, 0xED, 0xB0, 0xC3, IDLE as u8, (IDLE >> 8) as u8]
+            } else {
+                // loop: LD A,(HL); LD (DE),A; INC HL; INC DE; DEC BC; LD A,B; OR C; JR NZ,loop
+                vec![0xF3, 0x21, 0x00, 0xA0, 0x11, dst as u8, (dst >> 8) as u8, 0x01, 0x00, 0x1B, 0x7E, 0x12, 0x23, 0x13, 0x0B, 0x78, 0xB1, 0x20, 0xF7, 0xC3, IDLE as u8, (IDLE >> 8) as u8]
+            };
+            rig::poke(&mut e, 0x8800, &code);
+            e.verif_cpu().regs.set_pc(0x8800);
+            frames(&mut e, 6);
+        }
+        Writer::Poke => {
+            if m128(c) {
+                out_latch(&mut e, latch);
+            }
+            rig::poke(&mut e, dst, content);
+        }
+        Writer::FastLoad => {
+            if m128(c) {
+                // ROM 1 must be paged in for the trap, keep the rest of the latch
+                out_latch(&mut e, latch | 0x10);
+            }
+            let blk = crate::tapemodel::std_block(0xFF, content);
+            e.load_tape(Tape::Tap(VAsset::new(crate::tapemodel::tap_image(&[blk])))).map_err(|e| format!("{:?}", e))?;
+            let mut v = RegsView::default();
+            v.pc = 0x0556;
+            v.sp = 0xBF00;
+            v.af = 0xFF01;
+            v.ix = dst;
+            v.de = 6912;
+            v.im = 1;
+            rig::set_regs(e.verif_cpu(), &v);
+            rig::poke(&mut e, 0xBF00, &[IDLE as u8, (IDLE >> 8) as u8]);
+            frames(&mut e, 2);
+        }
+        Writer::Sna | Writer::SzxStored | Writer::SzxZlib => {
+            let mut s = MState::new(m128(c), 3);
+            s.port7ffd = latch;
+            s.regs.pc = IDLE;
+            s.regs.sp = 0xBF00;
+            s.regs.iff1 = false;
+            s.regs.iff2 = false;
+            let bank = match c {
+                Cfg::K128Shadow => 7,
+                _ => 5,
+            };
+            s.banks[bank][..6912].copy_from_slice(content);
+            // idle loop lives at 0x9000 = bank 2 offset 0x1000
+            s.banks[2][0x1000..0x1003].copy_from_slice(&[0xF3, 0x18, 0xFE]);
+            let file = match w {
+                Writer::Sna => {
+                    if m128(c) {
+                        sna128(&s)
+                    } else {
+                        sna48(&s)
+                    }
+                }
+                Writer::SzxStored => szx(&s, &SzxOpts::default()),
+                _ => szx(&s, &SzxOpts { compressed: true, ..SzxOpts::default() }),
+            };
+            let snap = if w == Writer::Sna { Snapshot::Sna(VAsset::new(file)) } else { Snapshot::Szx(VAsset::new(file)) };
+            e.load_snapshot(snap).map_err(|e| format!("{:?}", e))?;
+        }
+        Writer::Scr => {
+            if m128(c) {
+                out_latch(&mut e, latch);
+            }
+            e.load_screen(Screen::Scr(VAsset::new(scr(content)))).map_err(|e| format!("{:?}", e))?;
+        }
+    }
+    Ok(e)
+}
+
+fn displayed_memory(e: &Emu, is128: bool) -> Vec<u8> {
+    if is128 {
+        let bank = if e.verif_paging().0 & 0x08 != 0 { 7 } else { 5 };
+        e.verif_ram_bank(bank)[..6912].to_vec()
+    } else {
+        e.verif_ram_bank(0)[..6912].to_vec()
+    }
+}
+
+/// Compare the completed frame with the reference decode. Returns Some(flash phase) when equal.
+fn compare_frame(e: &Emu, mem: &[u8]) -> Result<bool, (usize, usize, u8, u8)> {
+    let pix = &rig::canvas(e).pix;
+    let d0 = decode_screen(mem, false);
+    if pix[..] == d0[..] {
+        return Ok(false);
+    }
+    let d1 = decode_screen(mem, true);
+    if pix[..] == d1[..] {
+        return Ok(true);
+    }
+    // first mismatch against the closer decode
+    let m0 = (0..pix.len()).filter(|i| pix[*i] != d0[*i]).count();
+    let m1 = (0..pix.len()).filter(|i| pix[*i] != d1[*i]).count();
+    let d = if m0 <= m1 { &d0 } else { &d1 };
+    let i = (0..pix.len()).find(|i| pix[*i] != d[*i]).unwrap();
+    Err((i % 256, i / 256, pix[i], d[i]))
+}
+
+fn check_content(ctx: &Ctx, c: Cfg, w: Writer, content: &[u8], label: &str) {
+    // writers that do not apply to a configuration
+    if w == Writer::Scr && matches!(c, Cfg::K128Shadow | Cfg::K128Bank5AtC000) {
+        return;
+    }
+    if matches!(w, Writer::Sna | Writer::SzxStored | Writer::SzxZlib) && c == Cfg::K128Bank5AtC000 {
+        return;
+    }
+    ctx.add_eval(1);
+    let case = json!({"kind":"content","cfg":format!("{:?}", c),"writer":format!("{:?}", w),"content":label});
+    let mut e = match write_content(c, w, content) {
+        Ok(e) => e,
+        Err(err) => {
+            ctx.violation(&format!("C08:writer-error:{:?}:{:?}", w, c), &format!("writer {:?} failed on {:?}: {}", w, c, err), case);
+            return;
+        }
+    };
+    // two complete frames with the display unchanged
+    frames(&mut e, 3);
+    let mem = displayed_memory(&e, m128(c));
+    if mem[..] != content[..] {
+        ctx.violation(
+            &format!("C08:content-not-in-display-memory:{:?}:{:?}", w, c),
+            &format!("after writer {:?} on {:?} the displayed bank does not hold the content ({})", w, c, label),
+            case,
+        );
+        return;
+    }
+    match compare_frame(&e, &mem) {
+        Ok(ph) => ctx.outcome(crate::vcore::fnv(label.as_bytes()) ^ ph as u64 ^ ((w as u64) << 8) ^ ((c as u64) << 16)),
+        Err((x, y, got, want)) => {
+            ctx.violation(
+                &format!("C08:picture:{:?}:{:?}", w, c),
+                &format!("writer {:?} on {:?}, content {}: pixel ({},{}) shows {:02x} (colour|bright<<3), standard decode of the displayed memory gives {:02x}", w, c, label, x, y, got, want),
+                case,
+            );
+        }
+    }
+}
+
+fn flash_period(ctx: &Ctx, c: Cfg) {
+    let mut content = latin(77);
+    for a in 6144..6912 {
+        content[a] |= 0x80;
+        if content[a] & 7 == (content[a] >> 3) & 7 {
+            content[a] ^= 1;
+        }
+    }
+    let mut e = match write_content(c, Writer::Ldir, &content) {
+        Ok(e) => e,
+        Err(_) => return,
+    };
+    frames(&mut e, 3);
+    let mem = displayed_memory(&e, m128(c));
+    let mut phases = Vec::new();
+    for k in 0..48 {
+        frames(&mut e, 1);
+        match compare_frame(&e, &mem) {
+            Ok(p) => phases.push(p),
+            Err((x, y, g, w)) => {
+                ctx.violation(&format!("C08:flash:picture:{:?}", c), &format!("frame {} of an unchanged flashing screen: pixel ({},{}) {:02x} vs {:02x}", k, x, y, g, w), json!({"kind":"flash","cfg":format!("{:?}", c)}));
+                return;
+            }
+        }
+    }
+    ctx.add_eval(48);
+    // runs of equal phase: all complete runs must be exactly 16 frames long
+    let mut runs: Vec<usize> = Vec::new();
+    let mut cur = 1;
+    for k in 1..phases.len() {
+        if phases[k] == phases[k - 1] {
+            cur += 1;
+        } else {
+            runs.push(cur);
+            cur = 1;
+        }
+    }
+    let inner = if runs.len() > 1 { &runs[1..] } else { &runs[0..0] };
+    if runs.is_empty() || inner.iter().any(|r| *r != 16) || runs[0] > 16 {
+        ctx.violation(
+            &format!("C08:flash:period:{:?}", c),
+            &format!("FLASH cells swap with run lengths {:?} (+ trailing {}) frames instead of exactly 16", runs, cur),
+            json!({"kind":"flash","cfg":format!("{:?}", c)}),
+        );
+    }
+    ctx.outcome(crate::vcore::fnv(format!("{:?}", runs).as_bytes()));
+}
+
+fn bank_switch(ctx: &Ctx) {
+    // both screens hold different pictures; bit 3 selects which one is shown, frame by frame
+    let a = latin(5);
+    let b = latin(130);
+    let mut o = Opts::k128();
+    o.sound = false;
+    let mut e = rig::emu(&o);
+    set_idle(&mut e);
+    let out_latch = |e: &mut Emu, v: u8| {
+        rig::poke(e, 0x8800, &[0x01, 0xFD, 0x7F, 0x3E, v, 0xED, 0x79, 0xC3, IDLE as u8, (IDLE >> 8) as u8]);
+        e.verif_cpu().regs.set_pc(0x8800);
+        frames(e, 1);
+    };
+    // fill bank 5 and bank 7 by LDIR
+    for (latch, content) in [(0x05u8, &a), (0x07u8, &b)] {
+        out_latch(&mut e, latch);
+        rig::poke(&mut e, 0xA000, content);
+        rig::poke(&mut e, 0x8900, &[0x21, 0x00, 0xA0, 0x11, 0x00, 0xC0, 0x01, 0x00, 0x1B, 0xED, 0xB0, 0xC3, IDLE as u8, (IDLE >> 8) as u8]);
+        e.verif_cpu().regs.set_pc(0x8900);
+        frames(&mut e, 5);
+    }
+    for (k, latch) in [0x00u8, 0x08, 0x00, 0x0F, 0x07, 0x08].iter().enumerate() {
+        out_latch(&mut e, *latch);
+        frames(&mut e, 2);
+        let mem = displayed_memory(&e, true);
+        let want = if latch & 8 != 0 { &b } else { &a };
+        ctx.add_eval(1);
+        if mem[..] != want[..] {
+            ctx.violation("C08:bank-switch:memory", "screen banks do not hold the two pictures", json!({"kind":"bankswitch"}));
+            return;
+        }
+        if let Err((x, y, g, w)) = compare_frame(&e, &mem) {
+            ctx.violation(
+                "C08:bank-switch:picture",
+                &format!("after paging write #{} ({:02x}) the picture is not the decode of bank {}: pixel ({},{}) {:02x} vs {:02x}", k, latch, if latch & 8 != 0 { 7 } else { 5 }, x, y, g, w),
+                json!({"kind":"bankswitch"}),
+            );
+            return;
+        }
+    }
+    ctx.outcome(0xB5);
+}
+
+/// Beam-relative clause: a byte stored clearly before (after) the beam fetches it appears in the
+/// current (next) frame.
+fn beam_clause(ctx: &Ctx, is128: bool, lines: &[usize]) {
+    let sp = spec(is128);
+    let jobs: Vec<(usize, usize)> = lines.iter().flat_map(|l| [0usize, 15, 31].into_iter().map(move |c| (*l, c))).collect();
+    par_for(jobs.len(), 1, |j| {
+        let (line, col) = jobs[j];
+        let mut o = Opts::machine(is128);
+        o.sound = false;
+        let mut e = rig::emu_stepping(&o);
+        let y = line;
+        let off = ((y & 0xC0) << 5) | ((y & 7) << 8) | ((y & 0x38) << 2) | col;
+        let addr = 0x4000 + off as u16;
+        // attribute: ink 7 on paper 0, so the bitmap byte is visible
+        let attr_addr = 0x5800 + ((y >> 3) * 32 + col) as u16;
+        let fetch = sp.first_pixel as i64 + (line as i64) * sp.line as i64 + (col as i64) * 4;
+        let mut old = 0x0Fu8;
+        for d in -90i64..=70 {
+            let t = fetch + d;
+            if t < 40 {
+                continue;
+            }
+            let new = !old;
+            // run the idle loop (stepping) to the start of a fresh frame
+            rig::poke(&mut e, IDLE, &[0xF3, 0x18, 0xFE]);
+            rig::poke(&mut e, 0x9100, &[0x77, 0xC3, IDLE as u8, (IDLE >> 8) as u8]); // LD (HL),A ; JP IDLE
+            let mut r = RegsView::default();
+            r.pc = IDLE;
+            r.sp = 0xBF00;
+            rig::set_regs(e.verif_cpu(), &r);
+            // establish the old value through the CPU write path and finish the frame
+            let f0 = e.verif_total_frames();
+            let mut r2 = r.clone();
+            r2.pc = 0x9100;
+            r2.hl = attr_addr;
+            r2.af = 0x0700;
+            rig::set_regs(e.verif_cpu(), &r2);
+            rig::step(&mut e);
+            let mut r3 = r.clone();
+            r3.pc = 0x9100;
+            r3.hl = addr;
+            r3.af = (old as u16) << 8;
+            rig::set_regs(e.verif_cpu(), &r3);
+            rig::step(&mut e);
+            while e.verif_total_frames() < f0 + 2 {
+                rig::step(&mut e);
+            }
+            // now early in a frame: place the clock and store the new value
+            e.verif_set_frame_clocks(t as usize);
+            let mut r4 = r.clone();
+            r4.pc = 0x9100;
+            r4.hl = addr;
+            r4.af = (new as u16) << 8;
+            rig::set_regs(e.verif_cpu(), &r4);
+            rig::step(&mut e);
+            let f1 = e.verif_total_frames();
+            while e.verif_total_frames() < f1 + 1 {
+                rig::step(&mut e);
+            }
+            let shown = |e: &Emu| -> u8 {
+                let pix = &rig::canvas(e).pix;
+                let mut b = 0u8;
+                for k in 0..8 {
+                    if pix[y * 256 + col * 8 + k] & 7 == 7 {
+                        b |= 0x80 >> k;
+                    }
+                }
+                b
+            };
+            let cur = shown(&e);
+            while e.verif_total_frames() < f1 + 2 {
+                rig::step(&mut e);
+            }
+            let next = shown(&e);
+            ctx.add_eval(1);
+            let case = json!({"kind":"beam","m128":is128,"line":line,"col":col,"d":d});
+            // LD (HL),A: write completes between t+4 and t+7+6 (contention)
+            let clearly_before = t + 13 < fetch - 16;
+            let clearly_after = t + 4 > fetch + 16;
+            if clearly_before && cur != new {
+                ctx.violation(
+                    &format!("C08:beam:stored-before-fetch-not-in-current-frame:{}", if is128 { "128k" } else { "48k" }),
+                    &format!("line {} column {}: byte stored by an instruction starting {} T before the ULA fetch shows {:02x} in the current frame (new value {:02x}, old {:02x})", line, col, -d, cur, new, old),
+                    case.clone(),
+                );
+            }
+            if clearly_after && cur != old {
+                ctx.violation(
+                    &format!("C08:beam:stored-after-fetch-visible-too-early:{}", if is128 { "128k" } else { "48k" }),
+                    &format!("line {} column {}: byte stored by an instruction starting {} T after the ULA fetch already shows {:02x} in the current frame (old value {:02x})", line, col, d, cur, old),
+                    case.clone(),
+                );
+            }
+            if next != new {
+                ctx.violation(
+                    &format!("C08:beam:not-in-next-frame:{}", if is128 { "128k" } else { "48k" }),
+                    &format!("line {} column {}: stored byte {:02x} is not shown in the next frame ({:02x})", line, col, new, next),
+                    case,
+                );
+            }
+            ctx.outcome((cur == new) as u64 | ((d + 100) as u64) << 1);
+            old = new;
+        }
+    });
+}
+
+pub fn run(tier: Tier, seed: u64, replay: Option<String>) -> i32 {
+    let ctx = Ctx::new("C08", tier, seed, "exploration");
+    let quick = !tier.is_thorough();
+    if let Some(path) = replay {
+        let v: serde_json::Value = serde_json::from_slice(&rig::read_file(&path)).expect("replay json");
+        println!("replay: re-running the {} family of the recorded case {}", v["case"]["kind"], v["case"]);
+    }
+    let cfgs = [Cfg::K48, Cfg::K128Normal, Cfg::K128Shadow, Cfg::K128Bank5AtC000];
+    let writers = [Writer::Ldir, Writer::CpuStores, Writer::Poke, Writer::FastLoad, Writer::Sna, Writer::SzxStored, Writer::SzxZlib, Writer::Scr];
+    let mut contents: Vec<(String, Vec<u8>)> = Vec::new();
+    let nlatin = if quick { 32 } else { 256 };
+    for j in 0..nlatin {
+        let jj = j * 256 / nlatin;
+        contents.push((format!("latin{}", jj), latin(jj)));
+    }
+    for k in 0..13 {
+        contents.push((format!("addrline{}", k), address_line(k, false)));
+        contents.push((format!("addrline{}c", k), address_line(k, true)));
+    }
+    let mut jobs: Vec<(Cfg, Writer, usize)> = Vec::new();
+    for c in cfgs {
+        for (wi, w) in writers.iter().enumerate() {
+            for i in 0..contents.len() {
+                // quick: every writer sees 1/4 of the contents (all contents are seen by the LDIR writer)
+                if quick && *w != Writer::Ldir && (i + wi) % 4 != 0 {
+                    continue;
+                }
+                jobs.push((c, *w, i));
+            }
+        }
+    }
+    par_for(jobs.len(), 2, |j| {
+        let (c, w, i) = jobs[j];
+        check_content(&ctx, c, w, &contents[i].1, &contents[i].0);
+    });
+    for c in [Cfg::K48, Cfg::K128Normal, Cfg::K128Shadow] {
+        flash_period(&ctx, c);
+    }
+    bank_switch(&ctx);
+    let lines: Vec<usize> = if quick { vec![0, 1, 7, 8, 63, 64, 65, 100, 127, 128, 190, 191] } else { (0..192).collect() };
+    beam_clause(&ctx, false, &lines);
+    beam_clause(&ctx, true, &lines);
+    ctx.add_nontrivial(jobs.len() as u64);
+    ctx.sample(json!({"cfg":"K128Shadow","writer":"SzxZlib","content":"latin8"}));
+    ctx.note("contents", json!(contents.len()));
+    ctx.note("not_judged", json!("phase of the first FLASH swap; stores completing within +-16 T of the ULA fetch of the byte"));
+    ctx.finish(
+        "contents: Latin frames (bitmap[a]=(17a+j) mod 256, attr[a]=(29a+3j) mod 256: every screen address meets every byte value over j) and 26 address-line frames; writers: LDIR, explicit CPU store loop, execute_poke, tape fast load through the ROM trap, SNA, SZX stored, SZX zlib, SCR; configurations: 48K, 128K normal screen, 128K shadow screen written through C000, bank 5 written through C000; after two unchanged frames all 49152 pixels (colour and brightness) are compared with the standard decode of the displayed bank; FLASH run lengths over 48 frames; paging bit 3 switched between frames; beam clause on picture lines x columns {0,15,31} x store times -90..+70 T around the ULA fetch. distinct_nontrivial = (configuration, writer, content) cases",
+        false,
+        &["quick tier rotates contents over the non-LDIR writers (each writer sees a quarter of the contents)", "beam clause places the frame clock through the hook"],
+    )
 }
